@@ -1,5 +1,6 @@
 import CuriesVerif.Properties.C06
 import CuriesVerif.Properties.C05
+import CuriesVerif.Properties.C09
 
 /-!
 # What a converter advertises is what it resolves (C04 / C05, `get_prefixes` / `get_uri_prefixes`)
@@ -162,6 +163,30 @@ theorem C05_advertised_histories (fold : Str → Str) (c : Conv) (h : WF c) (ops
   have h' : WF c' := C05_histories fold c h ops hr
   exact ⟨C04_advertised_prefixes h', C04_advertised_canonical h', C04_advertised_uri_prefixes h',
     fun p => (C04_advertised_prefix_map h' p).1, fun u => (C04_advertised_reverse_map h' u).1⟩
+
+/-- **C09 (union, in terms of the public getters).** A chain advertises exactly the union of what its inputs advertise,
+on the CURIE side and on the URI side, and — being well-formed (`C09_wf`) — resolves exactly that. -/
+theorem C09_union_advertised (fold : Str → Str) (convs : List Conv) (cs : Bool) (hw : ∀ c ∈ convs, WF c) (c' : Conv)
+    (hok : Conv.chain fold convs cs = .ok c') :
+    (∀ p, p ∈ c'.getPrefixes true ↔ ∃ c ∈ convs, p ∈ c.getPrefixes true) ∧
+    (∀ k, k ∈ c'.getUriPrefixes true ↔ ∃ c ∈ convs, k ∈ c.getUriPrefixes true) ∧
+    (∀ p, (∃ q, c'.standardizePrefix p false false = .ok (some q)) ↔ ∃ c ∈ convs, p ∈ c.getPrefixes true) := by
+  obtain ⟨hP, hU⟩ := C09_union fold convs cs hw c' hok
+  have h1 : ∀ p, p ∈ c'.getPrefixes true ↔ ∃ c ∈ convs, p ∈ c.getPrefixes true := by
+    intro p
+    rw [mem_getPrefixes_syn, hP p]
+    constructor
+    · rintro ⟨c, hc, hx⟩; exact ⟨c, hc, (mem_getPrefixes_syn p).mpr hx⟩
+    · rintro ⟨c, hc, hx⟩; exact ⟨c, hc, (mem_getPrefixes_syn p).mp hx⟩
+  refine ⟨h1, ?_, ?_⟩
+  · intro k
+    rw [mem_getUriPrefixes_syn, hU k]
+    constructor
+    · rintro ⟨c, hc, hx⟩; exact ⟨c, hc, (mem_getUriPrefixes_syn k).mpr hx⟩
+    · rintro ⟨c, hc, hx⟩; exact ⟨c, hc, (mem_getUriPrefixes_syn k).mp hx⟩
+  · intro p
+    rw [← C04_advertised_prefixes (C09_wf fold convs cs hw c' hok) p]
+    exact h1 p
 
 /-- non-vacuity: the hypotheses are met by a concrete well-formed converter (the one of known finding K1), and the
 advertised sets are not empty there -/
